@@ -1,3 +1,4 @@
 Require Import FastZ.
-From Dashu Require Import Base.Prelude Float.RoundSpec Float.Contract.
-Extraction "model.ml" check_contract dlen x_exp cmp_kx spec_round round_rat_at.
+From Dashu Require Import Base.Prelude Float.RoundSpec Float.Contract Float.Model.
+Extraction "model.ml" check_contract dlen x_exp cmp_kx spec_round round_rat_at
+  repr_round ctx_mul ctx_sqr ctx_cubic repr_div round_fract round_ratio.
